@@ -1264,6 +1264,14 @@ def c20_programs(tier, sd):
         (f2, [E(["<", a, b]), E(["<", b, lit(3)]), O(["a"], ["b"])]),                                   # a in {0,1}: most of a's range infeasible
         (f2, [["unique", [a, b]], E(["<", b, lit(8)]), O(["a"], ["b"])]),
         (f2, [E(["<", a, b]), O(["a", "c"], ["b"]), E(["==", c, ["slit", -2, 4]])]),
+        # chains whose constraints mention the later members first
+        (f2, [["if", [[["!=", c, lit(0)], [E(["!=", b, lit(0)])]]], None], E(["<=", a, b]), O(["a"], ["b"]), O(["b"], ["c"])]),
+        (f2, [E([">", c, ["slit", -8, 4]]), ["implies", [">", c, lit(0)], [E([">", b, a])]], O(["b"], ["c"]), O(["a"], ["b"])]),
+        # a 'before' list one member of which shares no constraint with the 'after' field; the same as two statements
+        (f2, [E(["<", a, b]), O(["a", "c"], ["b"])]),
+        (f2, [E(["<", a, b]), O(["a"], ["b"]), O(["c"], ["b"])]),
+        (f2, [E(["<", a, b]), E(["<", c, lit(3)]), O(["c", "a"], ["b"])]),
+        (f1, [["if", [[["==", a, lit(0)], [E(["==", b, lit(1)])]]], None], E(["<", c, lit(9)]), O(["a"], ["b", "c"])]),
     ]
     for fields, body in bodies:
         pr = one_class(fields, body)
